@@ -28,6 +28,11 @@ CLAIMED = {
             "encode_utf8 is compared with std for every char and from_u32 for every u32 (whole domains, exhaustive); chars/char_indices "
             "and their reversed types are stepped against std with a symbolic front/back choice per step to exhaustion for every valid "
             "UTF-8 string up to the stated length, comparing items, offsets, as_str() and produced-char validity.", "DESIGN.md#c07"),
+    "C08": (BMC + "std's slice iterators (iter, copied, windows, chunks, rchunks, chunks_exact, rchunks_exact, as_chunks) stepped in lockstep under every front/back interleaving",
+            "For every slice length up to the bound (u16 and zero-sized elements), every window/chunk size 1..=len+1 and every "
+            "interleaving of front and back steps to exhaustion, each konst iterator and its reversed type yield the same sub-slices "
+            "(address and length) as std, report the same remainder/as_slice, end at the same step and stay exhausted; copies are "
+            "independent; size 0 panics at the documented assert.", "DESIGN.md#c08"),
     "C09": (BMC + "std Range/RangeInclusive/RangeFrom iterators from every (start,end) pair",
             "For each of the 13 Step types every (start,end) pair is symbolic (inverted, MIN/MAX, char pairs across the surrogate gap) and "
             "K symbolic front/back steps (stepping on after exhaustion) are compared with std, for the forward and reversed iterator "
